@@ -653,3 +653,340 @@ def call_args(db, module, call, cls_scope=None):
         return terms.map_args(ent, call, skip_first=ent.kind in (
             'instance', 'class'))
     return None
+
+
+# ---------------------------------------------------------------------------
+# path-summary based utilities for the connection logic (C09, C10, C11, ...)
+CTX_MOD = 'minecraft.networking.connection'
+
+
+def summariser(db, cg, inline=(), opaque=(), **kw):
+    """PathSum with the package's conventions: helpers that are not units of
+    the confirmed tree are inlined, Packet.set_values too (so keyword
+    construction and attribute assignment of packet fields look the same),
+    and the version predicates of ConnectionContext are pure."""
+    from . import pathsum
+    pk = db.get_class('minecraft.networking.packets.packet', 'Packet')
+    sv = db.own_method(pk, 'set_values')
+    ctx = db.get_class(CTX_MOD, 'ConnectionContext')
+    pure = [f for f in db.funcs if f.cls is ctx
+            and f.name.startswith('protocol_')]
+    inl = set(inline)
+    if sv is not None:
+        inl.add(sv)
+    S = pathsum.PathSum(db, cg, inline=inl, opaque=opaque,
+                        inline_pred=pathsum.known_unit_pred(), **kw)
+    S.pure = set(pure)
+    return S
+
+
+def version_atom(a):
+    """(predicate name, constant args) when the atom is the truth of a
+    ConnectionContext.protocol_* call with constant arguments."""
+    if a[1] != 'truth':
+        return None
+    t = a[2][0]
+    if t[0] != 'call':
+        return None
+    fn = t[1]
+    name = None
+    if fn[0] == 'fn':
+        name = fn[1].name
+    elif fn[0] == 'attr':
+        name = fn[2]
+    if not name or not name.startswith('protocol_'):
+        return None
+    args = []
+    for x in t[2]:
+        if x[0] != 'const':
+            return None
+        args.append(x[1])
+    return name, tuple(args)
+
+
+def path_versions(P, path, upto=None):
+    """callable v -> bool: do the version decisions of the path (up to an
+    event) hold under protocol version v?"""
+    from .fold import Env
+    conds = path.conds if upto is None else path.conds[:upto]
+    tests = []
+    for a, pol, _ in conds:
+        va = version_atom(a)
+        if va is not None:
+            tests.append((va, pol))
+
+    def holds(v):
+        for (name, args), pol in tests:
+            fv = P.F.getattr(P.ctx(v), name, None, P.packet_ci.module)
+            r = bool(P.F.call(fv, list(args), {}, None,
+                              Env(P.packet_ci.module)))
+            if r != pol:
+                return False
+        return True
+    return holds
+
+
+def arm_of(path, pk):
+    """The packet_name literal the path's decisions select (`==` true), or
+    None when every comparison on the path is false / absent."""
+    from .pathsum import struct
+    name = ('attr', pk, 'packet_name')
+    for a, pol, _ in path.conds:
+        if a[1] == '==' and pol:
+            x, y = a[2]
+            if struct(x) == name and y[0] == 'const':
+                return y[1]
+            if struct(y) == name and x[0] == 'const':
+                return x[1]
+    return None
+
+
+def compared_names(paths, pk):
+    from .pathsum import struct
+    name = ('attr', pk, 'packet_name')
+    out = {}
+    for p in paths:
+        for a, pol, node in p.conds:
+            if a[1] == '==':
+                x, y = a[2]
+                if struct(x) == name and y[0] == 'const':
+                    out.setdefault(y[1], node)
+                elif struct(y) == name and x[0] == 'const':
+                    out.setdefault(x[1], node)
+    return out
+
+
+def packet_reads(path, pk):
+    """attribute names of the packet parameter the path reads"""
+    from .pathsum import path_terms
+    out = set()
+    for t in path_terms(path):
+        if t[0] == 'attr' and t[1] == pk:
+            out.add(t[2])
+    return out
+
+
+def name_agreement_ps(report, rid, db, P, S, reactor_ci, state):
+    """Every packet_name a reactor compares with is the packet_name of a
+    class in its clientbound table, and every packet attribute a path of
+    that arm reads is a field of that class in every version in which the
+    path's version decisions hold."""
+    from .protocol import Raises
+    from .fold import FoldRaise
+    fi = db.own_method(reactor_ci, 'react')
+    if fi is None:
+        raise AnalysisError('%s.react vanished' % reactor_ci.qualname)
+    pk = ('sym', fi.params[1])
+    paths = S.run(fi)
+    names = {}
+    for v in P.supported:
+        t = P.table('clientbound', state, v)
+        if isinstance(t, Raises):
+            continue
+        for cv in t:
+            try:
+                nm = P.F.getattr(cv, 'packet_name', cv.ci.node, cv.ci.module)
+            except FoldRaise:
+                continue
+            names.setdefault(nm, {}).setdefault(cv, []).append(v)
+    cmp_names = compared_names(paths, pk)
+    for nm, node in sorted(cmp_names.items()):
+        if nm not in names:
+            report.violation(rid, 'arm-name:%s:%s' % (reactor_ci.name, nm),
+                             fi.path, node, fi.qualname,
+                             'the arm for %r can never fire: no class in '
+                             'the clientbound %s table has that packet_name'
+                             % (nm, state))
+            continue
+        arm_paths = [p for p in paths if arm_of(p, pk) == nm]
+        allreads = set()
+        missing = {}
+        for cv, vs in names[nm].items():
+            have_cache = {}
+            for p in arm_paths:
+                reads = packet_reads(p, pk) - {'packet_name'}
+                allreads |= reads
+                holds = path_versions(P, p)
+                for v in vs:
+                    if not holds(v):
+                        continue
+                    if v not in have_cache:
+                        have = set()
+                        d = P.definition(cv, v)
+                        if isinstance(d, list):
+                            for e in d:
+                                have |= set(e)
+                        rd, _ = P.custom_codec(cv.ci)
+                        if rd is not None:
+                            for x in ast.walk(rd.node):
+                                if isinstance(x, ast.Attribute) and \
+                                        isinstance(x.ctx, ast.Store):
+                                    have.add(x.attr)
+                        have_cache[v] = have
+                    for a in reads:
+                        if a not in have_cache[v] and db.find_attr(
+                                cv.ci, a) is None:
+                            missing.setdefault((cv, a), []).append(v)
+        if missing:
+            for (cv, a), mv in sorted(missing.items(),
+                                      key=lambda kv: (kv[0][0].ci.qualname,
+                                                      kv[0][1])):
+                report.violation(
+                    rid, 'arm-field:%s:%s:%s' % (reactor_ci.name, nm, a),
+                    fi.path, node, fi.qualname,
+                    'the %r arm reads packet.%s, which %s does not '
+                    'carry in protocol(s) %s...' % (
+                        nm, a, cv.ci.qualname, sorted(set(mv))[:3]))
+        else:
+            report.ok(rid, '%s arm %r: %s are fields of %s' % (
+                reactor_ci.name, nm, sorted(allreads), sorted(
+                    cv.ci.qualname for cv in names[nm])))
+    return paths
+
+
+def written_packets(path, P, db):
+    """(event, packet object term, fields stored on it before the write)
+    for every write_packet call of the path whose argument is a packet
+    object built on the path."""
+    out = []
+    evs = path.flat()
+    for i, e in enumerate(evs):
+        if e.kind != 'call' or e.method() != 'write_packet':
+            continue
+        pos = [a for a in e.args if a[0] == 'obj']
+        if not pos:
+            continue
+        o = pos[0]
+        if o[3] is None or not db.is_subclass(o[3], P.packet_ci):
+            continue
+        fields = {}
+        for x in evs[:i]:
+            if x.kind == 'store' and x.base == o and isinstance(x.attr, str):
+                fields[x.attr] = x.value
+        out.append((e, o, fields))
+    return out
+
+
+def needed_fields(P, db, ci, v):
+    from .fold import ClassVal
+    cv = ClassVal(ci)
+    _, wr = P.custom_codec(ci)
+    need = set()
+    if wr is None:
+        d = P.definition(cv, v)
+        if isinstance(d, list):
+            for e in d:
+                need |= set(e)
+    else:
+        for st in wr.body:
+            if isinstance(st, ast.Expr):
+                for x in ast.walk(st):
+                    if isinstance(x, ast.Attribute) and isinstance(
+                            x.value, ast.Name) and \
+                            x.value.id == wr.params[0] and \
+                            x.attr != 'context':
+                        need.add(x.attr)
+    return need
+
+
+def field_completeness_ps(report, rid, db, P, S, fi, paths=None):
+    """Every packet object built on a path of fi and handed to write_packet
+    has all fields of its class's definition stored, in every version in
+    which the path's version decisions hold."""
+    paths = paths if paths is not None else S.run(fi)
+    per = {}
+    for p in paths:
+        for e, o, fields in written_packets(p, P, db):
+            ci = o[3]
+            holds = path_versions(P, p, e.nconds)
+            rec = per.setdefault((id(e.node), ci), dict(
+                node=e.node, ci=ci, missing={}, nv=set()))
+            for v in P.supported:
+                if not holds(v):
+                    continue
+                rec['nv'].add(v)
+                for f in needed_fields(P, db, ci, v):
+                    if f in fields or db.find_attr(ci, f) is not None:
+                        continue
+                    rec['missing'].setdefault(f, set()).add(v)
+    for key, rec in sorted(per.items(), key=lambda kv: kv[1]['node'].lineno):
+        ci = rec['ci']
+        if rec['missing']:
+            for f, vs in sorted(rec['missing'].items()):
+                vs = sorted(vs, key=lambda v: P.index.get(v, 0))
+                report.violation(
+                    rid, 'unset-field:%s:%s:%s' % (fi.qualname, ci.qualname,
+                                                   f),
+                    fi.path, rec['node'], fi.qualname,
+                    '%s is written without its field %r being set (needed '
+                    'in %d version(s), first %s): AttributeError at write '
+                    'time' % (ci.qualname, f, len(vs), P.vname(vs[0])))
+        else:
+            report.ok(rid, '%s: %s complete in %d version(s)' % (
+                fi.qualname, ci.qualname, len(rec['nv'])))
+    return len(per)
+
+
+def eof_fallback_ps(report, rid, db, S):
+    """PlayingStatusReactor.handle_exception handles exactly EOFError:
+    disconnects immediately, then takes the default-version path, and
+    reports the exception as handled; every other path reports it as not
+    handled and does nothing."""
+    from .pathsum import struct, show
+    ci = db.get_class(CTX_MOD, 'PlayingStatusReactor')
+    conn = db.get_class(CTX_MOD, 'Connection')
+    fi = db.own_method(ci, 'handle_exception')
+    if fi is None:
+        raise AnalysisError('PlayingStatusReactor.handle_exception vanished')
+    disconnect = db.own_method(conn, 'disconnect')
+    exc = ('sym', fi.params[1])
+    handled = 0
+    for p in S.run(fi):
+        tests = [(a, pol) for a, pol, _ in p.conds if a[1] == 'isinstance'
+                 and struct(a[2][0]) == exc]
+        v = p.value
+        truthy = p.returns and not (v[0] == 'const' and not v[1])
+        evs = p.flat(('call', 'store'))
+        if truthy or evs:
+            if len(tests) != 1 or not tests[0][1]:
+                report.violation(rid, 'eof-fallback:guard', fi.path, fi.node,
+                                 fi.qualname, 'the fallback runs / reports '
+                                 '"handled" on a path that is not guarded by '
+                                 'one isinstance(exc, ...) test [%s]'
+                                 % p.cond_text())
+                continue
+            ty = tests[0][0][2][1]
+            if ty != ('builtin', 'EOFError'):
+                report.violation(rid, 'eof-fallback:type', fi.path, fi.node,
+                                 fi.qualname, 'the default-version fallback '
+                                 'is taken for %s, not exactly for EOFError '
+                                 '(a server closing without a status reply)'
+                                 % show(ty))
+                continue
+            handled += 1
+            if not (truthy and v == ('const', True)):
+                report.violation(rid, 'eof-fallback:noreturn', fi.path,
+                                 fi.node, fi.qualname, 'the EOF fallback '
+                                 'does not report the exception as handled')
+            kinds = []
+            for e in evs:
+                if e.kind == 'call' and e.calls(disconnect):
+                    kw = dict(e.kwargs)
+                    pos = [a for a in e.args if a[0] == 'const']
+                    imm = kw.get('immediate', pos[0] if pos else None)
+                    kinds.append(('disconnect', imm == ('const', True)))
+                elif e.kind == 'call' and e.method() in (
+                        'handle_failure', 'handle_proto_version'):
+                    kinds.append(('fallback', True))
+            if kinds[:2] == [('disconnect', True), ('fallback', True)]:
+                report.ok(rid, 'EOF arm: disconnect(immediate=True) then '
+                          'handle_failure(); handled')
+            else:
+                report.violation(rid, 'eof-fallback:arm', fi.path, fi.node,
+                                 fi.qualname, 'the EOF arm must close '
+                                 'immediately and then reconnect with the '
+                                 'default version (found %s)' % kinds)
+    if not handled and not report.violations:
+        report.violation(rid, 'eof-fallback:noreturn', fi.path, fi.node,
+                         fi.qualname, 'the EOF fallback never reports the '
+                         'exception as handled')
